@@ -55,8 +55,8 @@ ASSUMPTIONS = [
     "`1 * x` = `x`; for integers  t > b  =  t >= b+1), not syntactically",
     "PYTHONHASHSEED=0 pins the iteration order of the sets of variable names inside Simplex",
 ]
-SHRINK_SECONDS = 60
-SHRINK_BUDGET = 400
+SHRINK_SECONDS = 20
+SHRINK_BUDGET = 150
 
 ALL_OPS = ('>=', '<=', '>', '<')
 NS_OPS = ('>=', '<=')
@@ -102,6 +102,20 @@ def first_bad_row(rows, x):
         if not cmp_op(row_value(a, x), op, Fraction(b)):
             return i
     return None
+
+
+def bad_rows_of(rows, vals):
+    """Indices of all rows violated by vals (Fractions, or (p, q) delta-pairs)."""
+    out = []
+    for i, (a, op, b) in enumerate(rows):
+        if vals and isinstance(vals[0], tuple):
+            lhs = (row_value(a, [v[0] for v in vals]), row_value(a, [v[1] for v in vals]))
+            ok = cmp_op(lhs, op, (Fraction(b), Fraction(0)))
+        else:
+            ok = cmp_op(row_value(a, vals), op, Fraction(b))
+        if not ok:
+            out.append(i)
+    return out
 
 
 def first_bad_row_pairs(rows, xp):
@@ -558,6 +572,9 @@ def run_ep(ep, nv, rows, enc):
                 return ('sat', {i: r.get(n, 0) for i, n in enumerate(names)}, None)
             return ('bad', repr(r))
         if ep in ('simplex_macro', 'strict_macro'):
+            if ep == 'strict_macro' and not any(op in ('>', '<') for _, op, _ in rows):
+                # prover/proofrec.py calls StrictSimplexMacro only when a strict comparison is present
+                raise CaseInvalid('strict_macro without a strict row')
             _, terms = build_terms(nv, rows, enc, RealType, ep)
             macro = simplex.SimplexMacro() if ep == 'simplex_macro' else simplex_strict.StrictSimplexMacro()
             with time_limit(180):
@@ -595,7 +612,7 @@ def run_ep(ep, nv, rows, enc):
 
 # ---------------------------------------------------------------- judging an outcome
 def judge_model(ep, nv, rows, model):
-    """None if the returned assignment is a genuine witness, else a description of what is wrong."""
+    """(None, []) if the returned assignment is a genuine witness, else (what is wrong, indices of violated rows)."""
     is_int = ep in EP_INT
     vals = []
     pairs = False
@@ -606,16 +623,16 @@ def judge_model(ep, nv, rows, model):
             try:
                 vals.append((Fraction(v.x), Fraction(v.y)))
             except Exception:
-                return 'value of variable %d is not finite: %r' % (i, v)
+                return 'value of variable %d is not finite: %r' % (i, v), []
             continue
         if isinstance(v, bool) or not isinstance(v, (int, Fraction)):
             if isinstance(v, float) and v == int(v) and abs(v) < 2 ** 50:
                 v = int(v)
             else:
-                return 'value of variable %d is %r (%s), not an exact number' % (i, v, type(v).__name__)
+                return 'value of variable %d is %r (%s), not an exact number' % (i, v, type(v).__name__), []
         v = Fraction(v)
         if is_int and v.denominator != 1:
-            return 'value of variable %d is %s, not an integer' % (i, v)
+            return 'value of variable %d is %s, not an integer' % (i, v), []
         vals.append(v)
     if pairs:
         vals = [v if isinstance(v, tuple) else (v, Fraction(0)) for v in vals]
@@ -626,8 +643,8 @@ def judge_model(ep, nv, rows, model):
         shown = [str(v) for v in vals]
     if bad is not None:
         a, op, b = rows[bad]
-        return 'assignment %s violates row %d: %s . x %s %s' % (shown, bad, a, op, b)
-    return None
+        return 'assignment %s violates row %d: %s . x %s %s' % (shown, bad, a, op, b), bad_rows_of(rows, vals)
+    return None, []
 
 
 def judge_proof(ep, nv, rows, enc, pt, truth):
@@ -678,14 +695,17 @@ SITE = {
 }
 
 
-def site_of(ep, cls):
+def site_of(ep, cls, feat):
     """Component a failure is filed under: the sat/unsat decision and the assignment of the two real macros are
-    made by their SimplexHOLWrapper, so wrong answers of simplex_macro and SimplexHOLWrapper share a site."""
-    if cls == 'wrong-answer' and ep == 'simplex_macro':
+    made by their SimplexHOLWrapper, so those failures of simplex_macro and SimplexHOLWrapper share a site."""
+    if ep == 'simplex_macro' and (cls == 'wrong-answer' or feat == 'shared-lhs'):
         return SITE['simplex_hol']
-    if cls == 'wrong-answer' and ep == 'strict_macro':
+    if ep == 'strict_macro' and (cls == 'wrong-answer' or feat == 'shared-lhs'):
         return 'simplex_strict.SimplexHOLWrapper'
     return SITE[ep]
+
+
+FLIP = {'>=': '<=', '<=': '>=', '>': '<', '<': '>'}
 
 
 def unshare(rows):
@@ -693,60 +713,117 @@ def unshare(rows):
     positive multiple)."""
     seen = set()
     out = []
-    flip = {'>=': '<=', '<=': '>=', '>': '<', '<': '>'}
     for a, op, b in rows:
-        cands = [(list(a), op, b), ([-c for c in a], flip[op], -b)]
+        cands = [(list(a), op, b), ([-c for c in a], FLIP[op], -b)]
         for m in (2, 3, 5, 7):
             cands.append(([m * c for c in a], op, m * b))
-            cands.append(([-m * c for c in a], flip[op], -m * b))
+            cands.append(([-m * c for c in a], FLIP[op], -m * b))
         for c in cands:
-            if tuple(c[0]) not in seen or not any(c[0]):
+            if tuple(c[0]) not in seen or not any(c[0]) or is_atom_row(a):
                 break
         seen.add(tuple(c[0]))
         out.append(c)
     return out
 
 
+def is_atom_row(a):
+    """x_i op b with coefficient exactly 1: Simplex keeps these as bounds on x_i, every other row gets a slack."""
+    return sum(1 for c in a if c) == 1 and sum(a) == 1
+
+
 def shared_lhs(rows):
-    vecs = [tuple(a) for a, _, _ in rows if any(a)]
+    vecs = [tuple(a) for a, _, _ in rows if any(a) and not is_atom_row(a)]
     return len(set(vecs)) < len(vecs)
 
 
-def attribution_candidates(ep, nv, rows, enc):
-    """(feature, equivalent input on which that feature is absent), most specific first.  All transformations keep
-    the solution set (over the integers for the integer entry points)."""
+def is_1var(a):
+    return sum(1 for c in a if c) == 1
+
+
+def atomize(rows, ops):
+    """Integer-equivalent system whose single-variable rows have coefficient +1 (or -1 where only >= is allowed)."""
     out = []
-    if ep in EP_INT and nonunit_1var(rows):
-        rows2 = [tuple(tighten_row(a, op, b)) if sum(1 for c in a if c) == 1 else (a, op, b) for a, op, b in rows]
-        out.append(('nonunit-1var-row', rows2, enc))
-    if ep not in ('omega_matrix', 'omega_hol') and shared_lhs(rows):
-        out.append(('shared-lhs', unshare(rows), enc))
-    if ep in ('simplex', 'strict', 'bb', 'simplex_hol') and enc['zeros'] == 'keep' and \
-            any(c == 0 for a, _, _ in rows for c in a):
-        out.append(('zero-coeff-jar', rows, dict(enc, zeros='drop')))
-    if ep in ('omega_hol', 'simplex_macro', 'strict_macro', 'int_macro') and enc['names'] != 'letters':
-        out.append(('x_k-names', rows, dict(enc, names='letters')))
+    for a, op, b in rows:
+        if is_1var(a):
+            a, op, b = tighten_row(a, op, b)
+            if min(a) < 0 and FLIP[op] in ops:
+                a, op, b = [-c for c in a], FLIP[op], -b
+        out.append((list(a), op, b))
     return out
 
 
-def feature_of(ep, cls, nv, rows, enc):
-    """Input feature for the signature.  A feature is assigned only if the same failure class disappears on an
-    equivalent input without that feature, so that another defect met on an input that merely has the feature keeps
-    its own signature."""
-    for feat, rows2, enc2 in attribution_candidates(ep, nv, rows, enc):
-        try:
-            viol2, _, _ = evaluate(ep, nv, [tuple(r) for r in rows2], enc2, want_truth=False)
-        except CaseInvalid:
-            continue
-        if not any(c == cls for c, _ in viol2):
-            return feat
+def without_zero_rows(nv, rows, ops):
+    """Same satisfiability, no row without variables: true ones are dropped, a false one becomes x0 >= 1, x0 <= 0."""
+    out = []
+    false_row = False
+    for a, op, b in rows:
+        if any(a):
+            out.append((list(a), op, b))
+        elif not cmp_op(0, op, b):
+            false_row = True
+    e0 = [1] + [0] * (nv - 1)
+    if false_row:
+        out.append((e0, '>=', 1))
+        out.append((e0, '<=', 0) if '<=' in ops else ([-c for c in e0], '>=', 0))
+    if not out:
+        out.append((e0, '>=', 0))
+    return out
+
+
+def attribution_candidates(ep, nv, rows, enc):
+    """[(feature, fn)], most specific first; fn(rows, enc) -> an equivalent input on which the feature is absent.
+    The transformations keep satisfiability and (except for the last resort of an all-zero system) the solution
+    set, over the integers for the integer entry points."""
+    out = []
+    ops = EP_OPS[ep]
+    if ep in ('omega_matrix', 'omega_hol') and nonunit_1var(rows):
+        out.append(('nonunit-1var-row', lambda r, e: (atomize(r, ('>=',) if ep == 'omega_matrix' else ()), e)))
+    if ep in ('bb', 'int_macro') and any(is_1var(a) and sum(a) != 1 for a, _, _ in rows):
+        out.append(('1var-row-coeff-not-1', lambda r, e: (atomize(r, ops), e)))
+    if ep in ('simplex', 'strict', 'bb', 'simplex_hol') and enc['zeros'] == 'keep' and \
+            any(c == 0 for a, _, _ in rows for c in a):
+        out.append(('zero-coeff-jar', lambda r, e: (r, dict(e, zeros='drop'))))
+    if ep not in ('omega_matrix', 'omega_hol') and shared_lhs(rows):
+        out.append(('shared-lhs', lambda r, e: (unshare(r), e)))
     if any(not any(a) for a, _, _ in rows):
-        return 'zero-row'
-    return 'plain'
+        out.append(('zero-row', lambda r, e: (without_zero_rows(nv, r, ops), e)))
+    if ep in ('omega_hol', 'simplex_macro', 'strict_macro', 'int_macro') and enc['names'] != 'letters':
+        out.append(('x_k-names', lambda r, e: (r, dict(e, names='letters'))))
+    return out
+
+
+def feature_of(ep, cls, nv, rows, enc, bad_rows):
+    """(feature, attributed?) for the signature.  A feature is attributed only if on an equivalent input without it
+    the entry point answers (sat / unsat / no conclusion; not an exception) and nothing is wrong with the answer, so
+    that another defect met on an input that merely has the feature keeps its own signature ('plain')."""
+    def cured(rows2, enc2):
+        try:
+            viol2, out2, _ = evaluate(ep, nv, [tuple(r) for r in rows2], enc2, want_truth=False)
+        except CaseInvalid:
+            return False
+        return out2[0] in ('sat', 'unsat', 'noconcl', 'budget') and not viol2
+    cands = attribution_candidates(ep, nv, rows, enc)
+    for feat, fn in cands:
+        if cured(*fn(rows, enc)):
+            return feat, True
+    if bad_rows and any(f == 'shared-lhs' for f, _ in cands):
+        # the assignment breaks only rows whose left-hand side also occurs in another row
+        vecs = [tuple(a) for a, _, _ in rows]
+        if all(vecs.count(vecs[i]) > 1 and not is_atom_row(vecs[i]) for i in bad_rows):
+            return 'shared-lhs', True
+    # two known causes at once: all transformations together
+    if len(cands) > 1:
+        r2, e2 = rows, enc
+        for _, fn in cands:
+            r2, e2 = fn(r2, e2)
+        if cured(r2, e2):
+            return cands[0][0], True
+    return 'plain', False
 
 
 def evaluate(ep, nv, rows, enc, want_truth=True):
-    """Run the entry point and judge it.  Returns (violations [(class, detail)], outcome tag, truth)."""
+    """Run the entry point and judge it.  Returns (violations [(class, detail, violated rows or None)], outcome,
+    truth)."""
     from kernel import theory
     theory.thy = _thy['real']
     is_int = ep in EP_INT
@@ -755,9 +832,9 @@ def evaluate(ep, nv, rows, enc, want_truth=True):
     truth = None
     viol = []
     if tag == 'sat':
-        why = judge_model(ep, nv, rows, out[1])
+        why, bad = judge_model(ep, nv, rows, out[1])
         if why is not None:
-            viol.append(('wrong-answer', 'answered satisfiable, but ' + why))
+            viol.append(('wrong-answer', 'answered satisfiable, but ' + why, bad))
         if want_truth:
             truth = z3_truth(nv, rows, is_int)
     elif tag == 'unsat':
@@ -768,11 +845,11 @@ def evaluate(ep, nv, rows, enc, want_truth=True):
                 raise SelfTestError('oracles disagree: z3 says unsat, brute force finds %s for %s' % (w, rows))
         if truth[0] == 'sat':
             viol.append(('wrong-answer', 'answered %s, but %s satisfies every row' % (
-                'contradiction' if ep.startswith('omega') else 'unsatisfiable', [str(v) for v in truth[1]])))
+                'contradiction' if ep.startswith('omega') else 'unsatisfiable', [str(v) for v in truth[1]]), None))
         if out[1] is not None:
-            viol.extend(judge_proof(ep, nv, rows, enc, out[1], truth))
+            viol.extend((c, d, None) for c, d in judge_proof(ep, nv, rows, enc, out[1], truth))
     elif tag == 'bad':
-        viol.append(('bad-result', out[1]))
+        viol.append(('bad-result', out[1], None))
     elif want_truth:
         truth = z3_truth(nv, rows, is_int)
     return viol, out, truth
@@ -784,14 +861,18 @@ def run_case(case, H):
     tag = out[0]
     st = structure(nv, rows)
     done = set()
-    for cls, detail in viol:
+    for cls, detail, bad in viol:
         if cls.startswith('!'):
             H.inconc(ep + ':' + cls[1:])
             continue
-        if cls in done:
+        feat, attributed = feature_of(ep, cls, nv, rows, enc, bad)
+        # one root cause, one signature: when the input feature is pinned down by the equivalent-input test, wrong
+        # verdicts, wrong witnesses and bad proofs caused by it are filed together
+        sig = '%s:%s:%s' % (site_of(ep, cls, feat), 'wrong-result' if attributed else cls, feat)
+        if sig in done:
             continue
-        done.add(cls)
-        H.violation('%s:%s:%s' % (site_of(ep, cls), cls, feature_of(ep, cls, nv, rows, enc)), case, detail)
+        done.add(sig)
+        H.violation(sig, case, cls + ': ' + detail if attributed else detail)
     tstr = truth[0] if truth is not None else 'na'
     if tag in ('sat', 'unsat'):
         klass = ['%s:%s' % (ep, tag)]
@@ -888,6 +969,9 @@ def system_strategy(ep):
                 if is_int and draw(st.booleans()):
                     b = b - 1 if op == '>' else b + 1      # same integer solutions
             final.append([list(a), op, b])
+        if ep == 'strict_macro' and not any(r[1] in ('>', '<') for r in final):
+            r = final[draw(st.integers(0, len(final) - 1))]
+            r[1] = '>' if r[1] == '>=' else '<'
         enc = {}
         if ep in ('simplex', 'strict', 'bb', 'simplex_hol'):
             enc['zeros'] = draw(st.sampled_from(['drop', 'drop', 'drop', 'keep']))
@@ -1013,10 +1097,10 @@ def self_test():
     bad = judge_proof('simplex_hol', 1, [([1], '>=', 10), ([1], '<=', 8)], enc, pt, ('unsat', None))
     if not any(c == 'proof-foreign-hyp' for c, _ in bad):
         raise SelfTestError('judge_proof misses a foreign hypothesis')
-    if judge_model('omega_matrix', 1, [([3], '>=', -1)], {0: -1}) is None or \
-            judge_model('omega_matrix', 1, [([3], '>=', -1)], {0: 0}) is not None or \
-            judge_model('bb', 1, [([2], '>=', 1)], {0: Fraction(1, 2)}) is None or \
-            judge_model('simplex', 1, [([2], '>=', 1)], {0: Fraction(1, 2)}) is not None:
+    if judge_model('omega_matrix', 1, [([3], '>=', -1)], {0: -1})[0] is None or \
+            judge_model('omega_matrix', 1, [([3], '>=', -1)], {0: 0})[0] is not None or \
+            judge_model('bb', 1, [([2], '>=', 1)], {0: Fraction(1, 2)})[0] is None or \
+            judge_model('simplex', 1, [([2], '>=', 1)], {0: Fraction(1, 2)})[0] is not None:
         raise SelfTestError('judge_model')
     # the node budget stops branch_and_bound on a diverging instance
     global BB_NODE_BUDGET
